@@ -11,13 +11,18 @@ import (
 	"golang.org/x/tools/go/ssa"
 )
 
+type storeGetter struct{ short, typ, name string }
+
 func c05LookupsFromGuardedMaps(c *Ctx, rule string) {
+	lookupsFromGuardedMaps(c, rule, []storeGetter{
+		{"sio", "serverSocketStore", "getByID"}, {"sio", "serverSocketStore", "getByNsp"}, {"sio", "clientSocketStore", "get"}, {"sio", "nspStore", "get"}, {"sio", "nspSocketStore", "get"},
+	})
+}
+
+func lookupsFromGuardedMaps(c *Ctx, rule string, getters []storeGetter) {
 	p := c.P
-	getters := []struct{ typ, name string }{
-		{"serverSocketStore", "getByID"}, {"serverSocketStore", "getByNsp"}, {"clientSocketStore", "get"}, {"nspStore", "get"}, {"nspSocketStore", "get"},
-	}
 	for _, g := range getters {
-		fn := p.FnOpt("sio", g.typ+"."+g.name)
+		fn := p.FnOpt(g.short, g.typ+"."+g.name)
 		if fn == nil {
 			c.Undecided("%s: %s.%s not found", rule, g.typ, g.name)
 			continue
@@ -83,7 +88,7 @@ func c05LookupsFromGuardedMaps(c *Ctx, rule string) {
 				}
 			}
 			walk(ret.Results[0])
-			c.Ob(rule, fmt.Sprintf("sio.%s.%s/answers-from-the-map", g.typ, g.name), ret.Pos(), bad == "",
+			c.Ob(rule, fmt.Sprintf("%s.%s.%s/answers-from-the-map", g.short, g.typ, g.name), ret.Pos(), bad == "",
 				fmt.Sprintf("%s.%s can return %s: a lookup must answer from the store's map under its mutex — a remembered result (a 'last hit' cache) is not invalidated by remove(), so a socket that left the namespace, or a closed one, is still found and packets keep being routed to it", g.typ, g.name, bad))
 		}
 	}
